@@ -27,7 +27,8 @@ def main():
         if not a.only:
             # the repository's own tests, recorded: every derivation step they perform is an edge too
             edges += add_test_edges(rep, a.tier, d)[0]
-        decide_edges(rep, edges, {"differ", "uninit", "cfg"}, stepbound=6000 if quick else 50000, workdir=d)
+        decide_edges(rep, edges, {"differ", "uninit", "cfg"}, stepbound=6000 if quick else 50000, workdir=d,
+                     coverage=True)
     rep.cov["rule"] = ("one case = one derivation edge (corpus procedure, real primitive, cursor, arguments) accepted by exo; "
                        "distinct = distinct derived IR (canonical hash), non-trivial = derived IR differs from source; "
                        "each run on every admissible input of the bounded domain by TLC (ExoMachine phases A/B)")
